@@ -393,6 +393,7 @@ fn gen_c20(run_seed: u64, tier: Tier) -> (Scenario, Vec<Knobs>) {
     base.conn_limit = 8;
     base.policy = Policy::None;
     base.shards = 4;
+    base.stall = Rng::sub(run_seed, "stall").chance(1, 2);
     let mut prng = Rng::sub(run_seed, "profile");
     let mut p = Profile::base();
     p.keys = prng.range(2, 5) as usize;
@@ -427,6 +428,9 @@ fn gen_c20(run_seed: u64, tier: Tier) -> (Scenario, Vec<Knobs>) {
         k.backlog = *krng.pick(&[1u32, 128, 1024]);
         k.hash_seed = krng.next();
         k.rng_seed = krng.next();
+        // whether the timer thread was stalled during an advance must not matter either:
+        // expiry follows elapsed seconds
+        k.stall = krng.chance(1, 2);
         variants.push(k);
     }
     (sc, variants)
@@ -471,7 +475,12 @@ impl Check for C20 {
         out.stats.merge(&s0);
         let mut fp = Fp::new();
         fp.u64(fp0);
+        let mut viols = Vec::new();
         for v in v0 {
+            if v.prop == "C05" && v.clause == "server-clock-drift" {
+                // "in every configuration item expiry follows real elapsed seconds"
+                viols.push(Violation::new("C20", "server-clock-does-not-follow-elapsed-seconds", v.detail.clone()));
+            }
             *out.out_of_scope.entry(v.signature()).or_insert(0) += 1;
             out.all.push(v);
         }
@@ -479,7 +488,6 @@ impl Check for C20 {
             out.log.push("--- reference configuration".into());
             out.log.extend(l0);
         }
-        let mut viols = Vec::new();
         for (vi, k) in variants.iter().enumerate() {
             let mut s2 = sc.clone();
             s2.knobs = k.clone();
